@@ -614,3 +614,95 @@ func TestC12Socks(t *testing.T) {
 		Check: c12SocksCheck,
 	})
 }
+
+// ---------------------------------------------------------------- application engine over a huge target space, cancelled early
+
+type c12BigCase struct {
+	Cmd     string `json:"command"`
+	CIDR    string `json:"cidr"`
+	Ports   string `json:"ports"`
+	Workers int    `json:"workers"`
+	K       int    `json:"cancel_after_probe"`
+	Exclude bool   `json:"with_exclude_file"`
+}
+
+func c12BigCheck(c c12BigCase) *kit.Verdict {
+	v := &kit.Verdict{Units: c.K}
+	v.Label("cmd=%s", c.Cmd)
+	files := &cmdFiles{}
+	defer files.cleanup()
+	args := []string{"-w", fmt.Sprint(c.Workers), "-p", c.Ports}
+	if c.Exclude {
+		args = append(args, "--exclude", files.write("exclude", "10.255.0.0/16\n"))
+	}
+	args = append(args, c.CIDR)
+	opts, rest, err := appCmdOpts(c.Cmd, args)
+	if err != nil {
+		return v.Failf("options: %v", err)
+	}
+	r, err := opts.parseScanRange(rest)
+	if err != nil {
+		return v.Failf("scan range: %v", err)
+	}
+	ctx, cancel := context.WithCancel(context.Background())
+	defer cancel()
+	h := &c12Hook{kind: "probe", k: c.K, counts: map[string]int{}, cancel: cancel}
+	sc := &c12Scanner{c: c12AppCase{N: 0, Kind: "probe"}, h: h, expect: -1}
+	w := &c12Writer{h: h}
+	real, err := log.NewLogger(w, "c12", log.JSON())
+	if err != nil {
+		return v.Failf("logger: %v", err)
+	}
+	lg := &c12Logger{Logger: real, h: h}
+	rand.Seed(7)
+	engine := opts.newScanEngine(ctx, sc)
+	ret := make(chan time.Time, 1)
+	go func() {
+		startScanEngine(ctx, engine, newEngineConfig(withLogger(lg), withScanRange(r), withExitDelay(300*time.Millisecond)))
+		ret <- time.Now()
+	}()
+	line := fmt.Sprintf("sx %s %s", c.Cmd, strings.Join(args, " "))
+	tick := time.NewTicker(50 * time.Millisecond)
+	defer tick.Stop()
+	overall := time.After(120 * time.Second)
+	for {
+		select {
+		case returned := <-ret:
+			h.mu.Lock()
+			fired, firedAt := h.fired, h.firedAt
+			h.mu.Unlock()
+			if !fired {
+				return v.Failf("harness: %s ended before probe %d", line, c.K)
+			}
+			v.NonTrivial = true
+			v.Label("returned-in=%s", bucket(int(returned.Sub(firedAt)/time.Millisecond), 0, 10, 100, 1000))
+			return v
+		case <-tick.C:
+			h.mu.Lock()
+			fired, firedAt := h.fired, h.firedAt
+			h.mu.Unlock()
+			if fired && time.Since(firedAt) > c12Limit {
+				buf := make([]byte, 1<<20)
+				return v.Failf("%s\ncancelled after probe %d of a scan over a huge target space; the scan call has not returned %v later\n%s", line, c.K, c12Limit, clipN(string(buf[:stack(buf)]), 3000))
+			}
+		case <-overall:
+			return v.Failf("harness: %s: cancel point not reached in 120 s", line)
+		}
+	}
+}
+
+// One case per test process (the driver runs each variant in its own process): after a cancel the abandoned request
+// generators of the unchanged code keep iterating the remaining target space without blocking - harmless for sx, which exits,
+// but it would burn the cores of a long-lived test process.
+func TestC12BigSpace(t *testing.T) {
+	variant := kit.EnvInt("C12_BIG", 0)
+	cases := []c12BigCase{
+		{Cmd: "socks", CIDR: "10.0.0.0/8", Ports: "1-65535", Workers: 100, K: 1},
+		{Cmd: "elastic", CIDR: "10.0.0.0/8", Ports: "9200,9201-9300", Workers: 8, K: 500},
+		{Cmd: "docker", CIDR: "0.0.0.0/0", Ports: "2375", Workers: 1, K: 3},
+		{Cmd: "socks", CIDR: "10.0.0.0/9", Ports: "1080-1180", Workers: 1000, K: 2000, Exclude: true},
+	}
+	m := kit.NewManual(t, "C12", "application engine (real option parsing, real IP x port generators, real engine, startScanEngine) over a huge target space (/0../9 x up to 65535 ports), cancelled synchronously inside the k-th probe start; the call must return within 30 s although billions of targets remain. One fixed scenario per process (variant from the driver). non-trivial: always")
+	c := cases[variant%len(cases)]
+	m.Record(t, c, c12BigCheck(c))
+}
